@@ -121,7 +121,11 @@ func (b *Batch) Get(key []byte) ([]byte, error) {
 		if logRecord.Type == datafile.LogRecordDeleted {
 			return nil, ErrKeyNotFound
 		}
-		return logRecord.Value, nil
+		// 返回副本, 避免调用方持有并修改暂存记录的内部空间
+		if len(logRecord.Value) == 0 {
+			return nil, nil
+		}
+		return append([]byte(nil), logRecord.Value...), nil
 	}
 
 	// 记录未缓存则执行查询
